@@ -154,13 +154,16 @@ type Conn struct {
 	onClose   func()
 	wdeadline time.Time
 	release   chan struct{}
+	done      chan struct{} // closed by Close: a blocked write returns, as a blocked socket write does
+	peerDone  chan struct{} // the other end's done: a blocked write fails when the peer resets the connection
 }
 
 // Pipe returns the client and server ends of a fresh connection.
 func Pipe(clientAddr, serverAddr *net.TCPAddr, plan Plan) (client, server *Conn) {
 	a, b := newHalf(), newHalf()
-	client = &Conn{rd: a, wr: b, local: clientAddr, rem: serverAddr, client: true, plan: plan, release: make(chan struct{})}
-	server = &Conn{rd: b, wr: a, local: serverAddr, rem: clientAddr}
+	client = &Conn{rd: a, wr: b, local: clientAddr, rem: serverAddr, client: true, plan: plan, release: make(chan struct{}), done: make(chan struct{})}
+	server = &Conn{rd: b, wr: a, local: serverAddr, rem: clientAddr, done: make(chan struct{})}
+	client.peerDone, server.peerDone = server.done, client.done
 	return
 }
 
@@ -228,6 +231,10 @@ func (c *Conn) Write(p []byte) (int, error) {
 			errS = "timeout"
 		case <-c.release:
 			errS, accept = "", len(p)
+		case <-c.done:
+			errS, accept = "reset", 0
+		case <-c.peerDone:
+			errS, accept = "reset", 0
 		}
 	}
 	n, werr := c.wr.write(p[:accept])
@@ -279,6 +286,7 @@ func (c *Conn) Close() error {
 		return nil
 	}
 	c.closed = true
+	close(c.done)
 	f := c.onClose
 	c.mu.Unlock()
 	c.wr.closeWrite()
